@@ -1,4 +1,6 @@
 pub mod cpref;
 pub mod engine;
 pub mod findings;
+pub mod pestq;
 pub mod props;
+pub mod refeval;
